@@ -1881,7 +1881,11 @@ impl Compiler {
 
                         // Should we export the imported ID?
                         if self.settings.export_top_level_ids && self.frame_stack.len() == 1 {
-                            self.compile_value_export(*import_id, import_register)?;
+                            // If 'import as' has been used then the export matches the local's name
+                            self.compile_value_export(
+                                maybe_as.unwrap_or(*import_id),
+                                import_register,
+                            )?;
                         }
                     }
                     Node::Str(_) => {
@@ -1945,7 +1949,11 @@ impl Compiler {
 
                             // Should we export the imported ID?
                             if self.settings.export_top_level_ids && self.frame_stack.len() == 1 {
-                                self.compile_value_export(*import_id, import_register)?;
+                                // If 'import as' has been used then the export matches the local's name
+                                self.compile_value_export(
+                                    maybe_as.unwrap_or(*import_id),
+                                    import_register,
+                                )?;
                             }
                         }
                         Node::Str(string) => {
